@@ -11,7 +11,7 @@ RULE = ('the root logger is configured as the daemon does without -v (level INFO
         'Secrets = configured PSKs, and every SKEYSEED, SK_d/ai/ar/ei/er/pi/pr, CHILD_SA key and Diffie-Hellman shared secret that the independent wire shadow derived '
         'or the DH taps saw (>= 8 octets). Histories: long successful histories over random configuration pairs (all exchange kinds, COOKIE / INVALID_KE retries), '
         'authentication failures from an independent impostor (wrong PSK, victim\'s PSK, method mismatch PSK<->RSA, wrong identity, bad signature), mismatching '
-        'configurations, refused proposals / selectors, kernel refusals injected at every netlink request of scripted histories, hostile cleartext and corrupted '
+        'configurations, configuration files that cannot be loaded (what pyikev2.py logs about them; PSKs that look like hexadecimal / base64 among them), refused proposals / selectors, kernel refusals (the error reply echoes the refused request as Linux does) injected at every netlink request of scripted histories, hostile cleartext and corrupted '
         'datagrams, lossy random walks with timeouts. POSITIVE CONTROL: a slice of the same histories at DEBUG level must show the keys (the oracle can see them). '
         'distinct = (history family, record text template).')
 ASSUMPTIONS = ['secrets shorter than 8 octets are not searched for (collision risk)', 'log records are searched after formatting (record.getMessage())']
@@ -184,12 +184,54 @@ def fam_hostile(ck, sc, i):
     return secrets_of(sh, ['psk-of-alice-73a9c1e5', 'psk-of-bob-0d4f8b26'], dh_log=S.W.dh_log), {'family': 'hostile+lossy', 'actions': sim.case['actions'][:20]}, S.W.internal_errors
 
 
-FAMILIES = [('success', fam_success), ('auth-failure', fam_impostor), ('mismatch', fam_mismatch), ('kernel-refusal', fam_kernel_faults), ('hostile+lossy', fam_hostile)]
+def fam_configuration(ck, sc, i):
+    """What pyikev2.py logs at ERROR when a configuration cannot be loaded: 'Configuration error: <text of the exception>'. The text must not show a PSK or key
+    material of ANY connection of the file (the broken value may be the PSK itself)."""
+    from vf.checks import c19
+    import configuration as r_conf
+    import copy
+    import ipaddress
+    rng = ck.rng('conf', i)
+    conf = {f'conn{j}': c19.base_conn(rng, j) for j in range(rng.randrange(1, 4))}
+    secrets = {}
+    for c_ in conf.values():
+        for au in ('my_auth', 'peer_auth'):
+            if i % 2:
+                c_[au].pop('privkey', None)
+                c_[au].pop('pubkey', None)
+                c_[au]['psk'] = rng.choice(['0xnot-hexadecimal-secret-' + str(rng.randrange(10 ** 6)), '0x12345O789abcdef' + str(rng.randrange(10 ** 4)), 'plain-text-secret-' + str(rng.randrange(10 ** 6)),
+                                            'base64:c2VjcmV0LXNlY3JldC0' + str(rng.randrange(10 ** 4)), ' spaced secret %d ' % rng.randrange(10 ** 6)])
+            if isinstance(c_[au].get('psk'), str) and len(c_[au]['psk']) >= 8:
+                secrets[c_[au]['psk'].encode()] = 'psk'
+            if 'privkey' in c_[au]:
+                body = ''.join(c_[au]['privkey'].strip().splitlines()[1:-1])
+                secrets[body[40:72].encode()] = 'private-key'
+    c19.mutate(rng, conf)
+    if i % 3 == 0:
+        # a broken value in the LAST connection: everything before it (secrets included) has been read by then
+        last = list(conf.values())[-1]
+        if isinstance(last, dict):
+            last[rng.choice(['lifetime', 'dpd', 'my_addr', 'encr'])] = rng.choice(['abc', None, [], '300.1.1.1'])
+    texts = []
+    try:
+        r_conf.Configuration([ipaddress.ip_address(a) for a in c19.LISTEN], copy.deepcopy(conf))
+        ck.count('configuration.accepted')
+    except r_conf.ConfigurationError as ex:
+        texts.append(f'Configuration error: {ex}')
+        ck.count('configuration.rejected')
+    except Exception as ex:
+        import traceback
+        texts.append('Configuration error: ' + ''.join(traceback.format_exception(type(ex), ex, ex.__traceback__)))
+        ck.count('configuration.other_exception')
+    return secrets, {'family': 'configuration', 'conf': conf}, [{'type': 'log', 'msg': t} for t in texts]
+
+
+FAMILIES = [('success', fam_success), ('configuration', fam_configuration), ('auth-failure', fam_impostor), ('mismatch', fam_mismatch), ('kernel-refusal', fam_kernel_faults), ('hostile+lossy', fam_hostile)]
 
 
 def run(ck):
     thorough = ck.thorough()
-    per = {'success': 40, 'auth-failure': 120, 'mismatch': 40, 'kernel-refusal': 120, 'hostile+lossy': 60}
+    per = {'success': 40, 'auth-failure': 120, 'mismatch': 40, 'kernel-refusal': 120, 'hostile+lossy': 60, 'configuration': 400}
     if thorough:
         per = {k: v * 60 for k, v in per.items()}
     n = 0
@@ -227,5 +269,6 @@ def verdict(ck):
     ck.floor('DEBUG controls that show keys', c['control.debug_histories_showing_keys'], 10)
     for f, _fn in FAMILIES:
         ck.floor(f'histories of family {f}', c[f'histories.{f}'], 20)
+    ck.floor('configurations rejected with secrets in the file', c['configuration.rejected'], 100)
     ck.floor('distinct record templates seen', len(ck.sets['scan.templates']), 40)
     return None
